@@ -70,12 +70,15 @@ async fn transfer_tcp(listener: TcpListener, current: ServerConfig<SslConfig>) {
             }
             CipherKind::Unknown => error!("unknown cipher kind"),
         },
-        VMess => template::transfer_tcp(listener, current, |c| Ok((c.cipher, c.password.clone())), vmess::tcp::new_codec).await,
+        VMess => template::transfer_tcp(listener, current, vmess::tcp::new_context, vmess::tcp::new_codec).await,
         Trojan => template::transfer_tcp(listener, current, |c| Ok(c.password.clone()), trojan::tcp::new_codec).await,
     }
 }
 
 async fn transfer_udp(socket: UdpSocket, current: ServerConfig<SslConfig>) {
+    if let (VMess, Err(e)) = (current.protocol, vmess::check_cipher(current.cipher)) {
+        return error!("create client context failed; error={e}");
+    }
     match (current.protocol, &current.ssl, &current.ws, &current.quic) {
         (Shadowsocks, _, _, _) => match current.cipher {
             CipherKind::Aes128Gcm | CipherKind::Aead2022Blake3Aes128Gcm => {
